@@ -15,6 +15,7 @@ structure WF (s : State) : Prop where
   ids : ∀ o ∈ s.orders, o.id ≤ s.lastOrderId
   idsNodup : (s.orders.map (·.id)).Nodup
   commits : ∀ c ∈ s.commitments, EntriesNonneg c.amount
+  ckeys : (s.commitments.map commitKey).Nodup
   pays : ∀ p ∈ s.payments, isValidCoins p.sourceAmt = true ∧ isValidCoins p.targetAmt = true
   keys : (s.payments.map payKey).Nodup
 
@@ -273,12 +274,13 @@ theorem covered_of_hold_le {s s' : State} (hc : HoldsCovered s) (hb : s'.bank = 
   omega
 
 theorem WF.of_subset {s s' : State} (hw : WF s) (ho : s'.orders.Sublist s.orders)
-    (hl : s.lastOrderId ≤ s'.lastOrderId) (hcm : ∀ c ∈ s'.commitments, c ∈ s.commitments)
+    (hl : s.lastOrderId ≤ s'.lastOrderId) (hcm : s'.commitments.Sublist s.commitments)
     (hp : s'.payments.Sublist s.payments) : WF s' where
   orders := fun o h => hw.orders o (ho.subset h)
   ids := fun o h => Nat.le_trans (hw.ids o (ho.subset h)) hl
   idsNodup := hw.idsNodup.sublist (ho.map _)
-  commits := fun c h => hw.commits c (hcm c h)
+  commits := fun c h => hw.commits c (hcm.subset h)
+  ckeys := hw.ckeys.sublist (hcm.map _)
   pays := fun p h => hw.pays p (hp.subset h)
   keys := hw.keys.sublist (hp.map payKey)
 
